@@ -72,21 +72,24 @@ Lookup(ns, cur, f) == IF SingleSeg(f) THEN SearchUp(ns, cur, f.segs[1])
 ScopeTarget(ns, cur, f) == LET p == Lookup(ns, cur, f) IN IF p # None /\ IsScope(ns, p) THEN p ELSE None
 
 (* ------------------------------------------------------------------ terms *)
+\* terms with sub-terms: an invocation (arguments), an operator (operands), a Buffer (its size term) and a
+\* Package (its elements); a field unit also has `a`, but that only holds the container's name strings
+Nested == {"call", "op", "buffer", "package"}
 RECURSIVE CallsOf(_), CallsOfSeq(_)          \* invocations inside a term, in source order (pre-order)
 CallsOfSeq(xs) == IF xs = <<>> THEN <<>> ELSE CallsOf(Head(xs)) \o CallsOfSeq(Tail(xs))
 CallsOf(x) == IF x.t = "call" THEN <<x>> \o CallsOfSeq(x.a)
-              ELSE IF x.t = "op" THEN CallsOfSeq(x.a) ELSE <<>>
+              ELSE IF x.t \in Nested THEN CallsOfSeq(x.a) ELSE <<>>
 RECURSIVE Resolve(_, _, _)                   \* replace every name by the object it designates
 Resolve(ns, cur, x) ==
-  CASE x.t = "call" -> [t |-> "call", p |-> Lookup(ns, cur, x.f), a |-> [i \in 1..Len(x.a) |-> Resolve(ns, cur, x.a[i])]]
-    [] x.t = "ref"  -> [t |-> "ref", p |-> Lookup(ns, cur, x.f)]
-    [] x.t = "op"   -> [t |-> "op", s |-> x.s, a |-> [i \in 1..Len(x.a) |-> Resolve(ns, cur, x.a[i])]]
+  CASE x.t = "call" /\ "f" \in DOMAIN x -> [t |-> "call", p |-> Lookup(ns, cur, x.f), a |-> [i \in 1..Len(x.a) |-> Resolve(ns, cur, x.a[i])]]
+    [] x.t = "ref" /\ "f" \in DOMAIN x  -> [t |-> "ref", p |-> Lookup(ns, cur, x.f)]
+    [] x.t \in {"op", "buffer", "package"} -> [x EXCEPT !.a = [i \in 1..Len(x.a) |-> Resolve(ns, cur, x.a[i])]]
     [] OTHER        -> x
 RECURSIVE HasOp(_)
-HasOp(x) == x.t = "op" \/ (x.t \in {"call", "op"} /\ \E i \in 1..Len(x.a) : HasOp(x.a[i]))
+HasOp(x) == x.t = "op" \/ (x.t \in Nested /\ \E i \in 1..Len(x.a) : HasOp(x.a[i]))
 RECURSIVE NamesIn(_)                         \* name forms used inside a term
 NamesIn(x) == (IF x.t \in {"call", "ref"} THEN {x.f} ELSE {})
-              \cup (IF x.t \in {"call", "op"} THEN UNION {NamesIn(x.a[i]) : i \in 1..Len(x.a)} ELSE {})
+              \cup (IF x.t \in Nested THEN UNION {NamesIn(x.a[i]) : i \in 1..Len(x.a)} ELSE {})
 
 (* ------------------------------------------------------------------ trigger constructs of the open findings *)
 (* Each is a predicate on a token in its loader state.  The generators (TLC scope and random      *)
@@ -117,14 +120,21 @@ CaretUnderLateScope(st, f) == ~f.abs /\ f.carets > 0 /\ TopLate(st)
 RootScopeDirective(t) == t.k = "scope" /\ t.f.segs = <<>>
 \* D9: an If whose body is empty (closed without a statement)
 EmptyIfBody(st) == st.stack # <<>> /\ Last(st.stack).t = "if" /\ Last(st.stack).cnt = 0
+\* D12: an invocation WITH arguments as an operand of a declaration that is not its last operand
+\* (OpRegion offset): the declaration collects its operands before the invocation has collected its own
+CallBeforeLastOperand(args) == \E i \in 1..(Len(args) - 1) : args[i].t = "call" /\ args[i].a # <<>>
+\* D13: a name or invocation in the operands of a declaration that is written with a prefix / path (the
+\* object is relocated before its operands are collected; their names would be searched from the new place)
+NamesInOperands(args) == UNION {NamesIn(args[i]) : i \in 1..Len(args)}
+NamesUnderRelocatedDecl(t) == t.k = "decl" /\ ~SingleSeg(t.f) /\ NamesInOperands(t.args) # {}
 \* D5/D6: operator expressions; D6/D7: While
 UsesOperator(t) == t.k \in {"stmt", "if", "while"} /\ \E i \in 1..Len(t.x) : HasOp(t.x[i])
 UsesWhile(t)    == t.k = "while"
 
 (* ------------------------------------------------------------------ the loader *)
-\* st: [ns, names (declared last segments), displaced (see D1b), ixs (see D10), stack (<<[p, t, cnt, late, off]>>), pend (invocations of this table),
+\* st: [ns, names (declared last segments), displaced (see D1b), ixs (see D10), lateargs (declarations whose operands use names), stack (<<[p, t, cnt, late, off]>>), pend (invocations of this table),
 \*      calls (resolved invocations of finished tables), tab, trig (finding ids met), err]
-S0 == [ns |-> Predef, names |-> {}, displaced |-> {}, ixs |-> {}, stack |-> <<>>, pend |-> <<>>, calls |-> <<>>, tab |-> 1, trig |-> {}, err |-> <<>>]
+S0 == [ns |-> Predef, names |-> {}, displaced |-> {}, ixs |-> {}, lateargs |-> <<>>, stack |-> <<>>, pend |-> <<>>, calls |-> <<>>, tab |-> 1, trig |-> {}, err |-> <<>>]
 Cur(st)      == IF st.stack = <<>> THEN <<>> ELSE Last(st.stack).p
 InMethod(st) == \E i \in 1..Len(st.stack) : st.stack[i].t = "method"
 Fail(st, why) == [st EXCEPT !.err = why]
@@ -139,11 +149,18 @@ NameTriggers(st, t) ==
   \cup (IF RootScopeDirective(t) THEN {"D8"} ELSE {})
   \cup (IF CaretUnderLateScope(st, t.f) THEN {"D1b"} ELSE {})
 TermTriggers(st, t) ==
-  (IF UsesOperator(t) THEN {"D5"} ELSE {})
+  (IF UsesOperator(t) \/ (t.k = "decl" /\ \E i \in 1..Len(t.x) : HasOp(t.x[i])) THEN {"D5"} ELSE {})
+  \cup (IF t.k = "decl" /\ CallBeforeLastOperand(t.x) THEN {"D12"} ELSE {})
+  \cup (IF t.k = "decl" /\ ~SingleSeg(t.f) THEN {"D13"} ELSE {})
   \cup (IF UsesWhile(t) \/ \E i \in 1..Len(st.stack) : st.stack[i].t = "while" THEN {"D7"} ELSE {})
   \cup UNION {UNION { (IF UsesCaretInObjectScope(st.ns, Cur(st), f) THEN {"D1"} ELSE {})
                       \cup (IF PathThroughObject(st.ns, Cur(st), f, f.segs) THEN {"D2c"} ELSE {})
                       : f \in NamesIn(t.x[i])} : i \in 1..Len(t.x)}
+
+\* operands of a statement wait for the end of the table (a name may be declared after its use)
+Count(st) == IF st.stack = <<>> THEN st ELSE [st EXCEPT !.stack[Len(st.stack)].cnt = @ + 1]
+Pend(st, t) == [Count(st) EXCEPT !.pend = @ \o [i \in 1..Len(t.x) |-> [cur |-> Cur(st), x |-> t.x[i]]],
+                          !.trig = @ \cup TermTriggers(st, t)]
 
 Declare(st, t, kind, args, scoped) ==
   LET p == DeclPath(st.ns, Cur(st), t.f) IN
@@ -153,7 +170,11 @@ Declare(st, t, kind, args, scoped) ==
   ELSE LET s1 == [st EXCEPT !.ns = @ \cup {[p |-> p, kind |-> kind, args |-> args]},
                             !.names = @ \cup {Last(p)}, !.trig = @ \cup NameTriggers(st, t),
                             !.displaced = IF Displaces(st, p) THEN @ \cup {p} ELSE @]
-       IN IF scoped = "" THEN s1 ELSE Push(s1, p, scoped)
+           \* operands that use names (Name(X, MTH0(1)), OpRegion length, Buffer size) wait for the end of the table
+           s2 == IF t.k = "decl" /\ NamesInOperands(args) # {}
+                 THEN [Pend(s1, [k |-> "decl", f |-> t.f, x |-> args]) EXCEPT !.lateargs = Append(@, [p |-> p, cur |-> Cur(st)])]
+                 ELSE s1
+       IN IF scoped = "" THEN s2 ELSE Push(s1, p, scoped)
 
 \* field units: running bit offset, access type/attribute as last set, lock/update rule from the flags.
 \* A unit records the kind of its container and the container's arguments as written (names are not
@@ -194,11 +215,6 @@ DeclField(st, t) ==
                   !.trig = @ \cup (IF \E p \in ps : ReusesName(st.names, Last(p)) THEN {"D3"} ELSE {})
                              \cup (IF PrefixedIndexName(t) THEN {"D11"} ELSE {})]
 
-\* operands of a statement wait for the end of the table (a name may be declared after its use)
-Count(st) == IF st.stack = <<>> THEN st ELSE [st EXCEPT !.stack[Len(st.stack)].cnt = @ + 1]
-Pend(st, t) == [Count(st) EXCEPT !.pend = @ \o [i \in 1..Len(t.x) |-> [cur |-> Cur(st), x |-> t.x[i]]],
-                          !.trig = @ \cup TermTriggers(st, t)]
-
 \* a resolved term is well formed when every invocation designates a method and carries as many
 \* arguments as that method declares, and every other name designates an object that is no method
 RECURSIVE TermOK(_, _)
@@ -207,7 +223,7 @@ TermOK(ns, r) ==
                        /\ Obj(ns, r.p).args[1].n[1] % 8 = Len(r.a)
                        /\ \A i \in 1..Len(r.a) : TermOK(ns, r.a[i])
     [] r.t = "ref"  -> r.p # None /\ Obj(ns, r.p).kind # "Method"
-    [] r.t = "op"   -> \A i \in 1..Len(r.a) : TermOK(ns, r.a[i])
+    [] r.t \in {"op", "buffer", "package"} -> \A i \in 1..Len(r.a) : TermOK(ns, r.a[i])
     [] OTHER        -> TRUE
 
 \* end of a table: the recorded operands are resolved against the namespace as it is NOW; the
@@ -218,6 +234,13 @@ IsPrefixOf(q, p) == Len(q) <= Len(p) /\ Prefix(p, Len(q)) = q
 ShadowedByIndexField(st) ==
   \E i \in 1..Len(st.pend) : \E f \in NamesIn(st.pend[i].x) : \E e \in st.ixs :
      SingleSeg(f) /\ f.segs[1] = e.x /\ IsPrefixOf(e.q, st.pend[i].cur)
+\* the operands of the declarations in `late`, with their names replaced by the objects they designate
+RECURSIVE ResolveOperands(_, _)
+ResolveOperands(ns, late) ==
+  IF late = <<>> THEN ns
+  ELSE LET o == Obj(ns, Head(late).p)
+           r == [o EXCEPT !.args = [i \in 1..Len(o.args) |-> Resolve(ns, Head(late).cur, o.args[i])]]
+       IN ResolveOperands((ns \ {o}) \cup {r}, Tail(late))
 EndTable(st) ==
   LET res == [i \in 1..Len(st.pend) |-> Resolve(st.ns, st.pend[i].cur, st.pend[i].x)]
       bad == {i \in 1..Len(res) : ~TermOK(st.ns, res[i])}
@@ -225,6 +248,7 @@ EndTable(st) ==
   IF st.stack # <<>> THEN Fail(st, <<"table ends inside a block">>)
   ELSE IF bad # {} THEN Fail(st, <<"name or invocation does not match a declaration", st.pend[CHOOSE i \in bad : TRUE].x>>)
   ELSE [st EXCEPT !.calls = @ \o [i \in 1..Len(cs) |-> [tab |-> st.tab, p |-> cs[i].p, a |-> cs[i].a]],
+                  !.ns = ResolveOperands(st.ns, st.lateargs), !.lateargs = <<>>,
                   !.pend = <<>>, !.tab = @ + 1, !.displaced = {},
                   !.trig = @ \cup (IF ShadowedByIndexField(st) THEN {"D10"} ELSE {})]
 
